@@ -21,8 +21,19 @@ methods of the class, the package's other MUTATING CALLERS of a collection:
     rescued grouping being collection k (model: `addUnseen` with the groups of collection j);
   * `connected comps decouple?` — `graphs.ConnectedProteinGraphs.get_connected_proteins(pg)` /
     `decouple_connected_proteins(pg)` over star-shaped components (model: `mergeComponents`).
+and the package's READERS of a collection, which must leave it exactly as it is (model: the no-op step `Op.read`):
+  * `rows keep_all v` — `results.ProteinGroupResults.from_protein_groups(pg, infos, scores, qvals, cutoff, keep_all)`;
+  * `compete strategy v` — `competition.*Strategy().do_competition(pg, infos, score_type)` (the returned collection
+    shares the group lists);
+  * `collect v` — `ProteinScoringStrategy.collect_peptide_scores_per_protein(pg, peptide_info_list, …)`;
+  * `report strategy keep_all v` — the three chained as in `picked_group_fdr.get_protein_group_results` (result rows of
+    the collection the competition returned);
+  * `quant v` — `quant.maxquant.add_precursor_quants` on a rendered evidence file;
+  the evidence is generated from the CURRENT groups of the collection (`gen_evidence`), `v = 0` gives only the first
+  member of each group a peptide of its own.
 After every call the state of EVERY collection is compared with the model, and the oracle judges every
-lookup against a linear scan of the groups of the collection it was asked of.
+lookup against a linear scan of the groups of the collection it was asked of and flags any change of any
+collection by a reader.
 Cases in the old single-collection format `{"init","from_list","ops"}` (corpus) are still accepted.
 
 The model implements the REPAIRED `get_protein_groups` (the −1 marker of an unknown protein is dropped
@@ -39,6 +50,10 @@ INSIDE = ["A", "B", "REV__A", "CON__B", "P4", "P5"]
 OUTSIDE = ["X", "REV__X"]
 MUTATORS = {"append", "extend", "index", "merge", "clean", "unseen", "rescue_update", "rescue_update_last", "unseen_from", "connected"}
 CHECKED = {"group", "idx", "idxs", "groups"}  # carry an explicit check_idx_valid flag
+# the package's READERS of a collection: must leave it exactly as it is (model: no-op step `Op.read`)
+READERS = {"rows", "compete", "collect", "report", "quant"}
+READERS_USING_INDEX = {"collect", "report", "quant"}  # look proteins up: fail loudly while the flag is down
+SCORE_CUTOFF = 0.01
 
 
 def _err(e):
@@ -125,6 +140,123 @@ def apply_caller(colls, g, c, op):
     raise ValueError("unknown op %r" % (op,))
 
 
+def gen_evidence(groups, v, every_group=False):
+    """Peptide evidence for the CURRENT groups of a collection, deterministic in (groups, v): one list of
+    (PEP, peptide, proteins) per group.  v = 0: one peptide per non-empty group that lists only the group's FIRST
+    protein (every other member has no peptide of its own).  Otherwise 0-3 peptides per non-empty group, each listing
+    a non-empty subset of the members with a PEP below (0.001 .. 0.004) or above (0.5) the cutoff 0.01, so that groups
+    with members WITHOUT a peptide below the cutoff next to members with one are frequent."""
+    rng = random.Random(7919 * v + len(groups))
+    infos = []
+    for gi, g in enumerate(groups):
+        distinct = list(dict.fromkeys(g))
+        lst = []
+        if distinct and v == 0:
+            lst.append((0.001, "PEPTIDE%dK" % gi, [distinct[0]]))
+        elif distinct:
+            n = rng.choice([0, 1, 1, 2, 3])
+            if every_group:
+                n = max(1, n)
+            for t in range(n):
+                sub = rng.sample(distinct, rng.randint(1, len(distinct)))
+                if len(distinct) > 1 and rng.random() < 0.5:
+                    sub = sub[: len(sub) - 1] or sub
+                lst.append((rng.choice([0.001, 0.002, 0.004, 0.004, 0.5]), "PEPTIDE%d_%dK" % (gi, t), sub))
+        infos.append(lst)
+    return infos
+
+
+def evidence_pil(groups, v):
+    """the same evidence as a peptide -> (PEP, proteins) dict, plus a peptide of a protein that is in no group and a
+    peptide shared between two groups (both are left out by the readers)"""
+    pil = {}
+    for lst in gen_evidence(groups, v):
+        for score, peptide, proteins in lst:
+            pil[peptide] = (score, list(proteins))
+    pil["PEPTIDEXK"] = (0.003, ["X"])
+    heads = [g[0] for g in groups if g]
+    if len(heads) >= 2:
+        pil["PEPTIDESHAREDK"] = (0.001, [heads[0], heads[-1]])
+    return pil
+
+
+def _competition(name):
+    from picked_group_fdr import competition
+
+    return {"classic": competition.ClassicStrategy, "picked": competition.PickedStrategy,
+            "picked_group": competition.PickedGroupStrategy}[name]()
+
+
+def _can_compete(groups, infos):
+    """do_competition unpacks zip(*survivors): it needs a group with peptides that is not a contaminant group"""
+    from picked_group_fdr import helpers
+
+    return any(len(i) > 0 and not helpers.is_contaminant(g) for g, i in zip(groups, infos))
+
+
+def apply_reader(colls, c, op, scratch):
+    """one of the package's readers, called for real with collection c (evidence generated from its current groups);
+    returns None or the loud failure"""
+    import numpy as np
+    from picked_group_fdr import results
+    from picked_group_fdr.scoring_strategy import ProteinScoringStrategy
+
+    pg, k = colls[c], op[0]
+    groups = [list(g) for g in pg.protein_groups]
+    try:
+        if k == "rows":  # ProteinGroupResults.from_protein_groups on the live collection
+            keep_all, v = bool(op[1]), op[2]
+            infos = gen_evidence(groups, v, every_group=keep_all)
+            n = len(groups)
+            results.ProteinGroupResults.from_protein_groups(pg, infos, [1.0] * n, [0.0] * n, SCORE_CUTOFF, keep_all)
+            return None
+        if k == "compete":  # do_competition: the returned collection shares the group lists
+            infos = gen_evidence(groups, op[2])
+            if _can_compete(groups, infos):
+                np.random.seed(op[2])
+                _competition(op[1]).do_competition(pg, infos, ProteinScoringStrategy("bestPEP"))
+            return None
+        if k == "collect":
+            ProteinScoringStrategy("bestPEP").collect_peptide_scores_per_protein(
+                pg, evidence_pil(groups, op[1]), 0.01, suppress_missing_protein_warning=True)
+            return None
+        if k == "report":  # the reporting sequence of picked_group_fdr.get_protein_group_results
+            strategy, keep_all, v = op[1], bool(op[2]), op[3]
+            score_type = ProteinScoringStrategy("bestPEP")
+            infos = score_type.collect_peptide_scores_per_protein(
+                pg, evidence_pil(groups, v), 0.01, suppress_missing_protein_warning=True)
+            if _can_compete(groups, infos):
+                np.random.seed(v)
+                picked, picked_infos, scores = _competition(strategy).do_competition(pg, infos, score_type)
+                results.ProteinGroupResults.from_protein_groups(
+                    picked, picked_infos, scores, [0.0] * len(scores), score_type.peptide_score_cutoff, keep_all)
+            return None
+        if k == "quant":  # quant.maxquant.add_precursor_quants: one get_protein_group_idxs per evidence row
+            import csv
+            import os
+            import tempfile
+
+            if not scratch:
+                scratch.append(tempfile.mkdtemp(prefix="c20_"))
+            path = os.path.join(scratch[0], "evidence.txt")
+            with open(path, "w", newline="") as f:
+                w = csv.writer(f, delimiter="\t")
+                w.writerow(["Modified sequence", "Leading proteins", "Leading razor protein", "PEP", "Score",
+                            "Experiment", "Charge", "Intensity", "Raw file", "id"])
+                for i, (peptide, (score, proteins)) in enumerate(evidence_pil(groups, op[1]).items()):
+                    w.writerow(["_" + peptide + "_", ";".join(proteins), proteins[0], repr(score), "10", "E1", "2", "100", "raw1", i])
+            score_type = ProteinScoringStrategy("no_remap bestPEP")
+            pgrs = results.ProteinGroupResults(
+                [results.ProteinGroupResult(proteinIds=";".join(g), majorityProteinIds=";".join(g), numberOfProteins=len(g))
+                 for g in groups])
+            score_type.get_quantification_parser()(
+                [path], [path], pg, pgrs, [None], None, True, score_type=score_type, suppress_missing_peptide_warning=True)
+            return None
+    except Exception as e:
+        return _err(e)
+    raise ValueError("unknown op %r" % (op,))
+
+
 def apply_op(pg, op):
     """one call on the real object -> JSON-able view of what the caller sees"""
     from picked_group_fdr import helpers
@@ -204,7 +336,10 @@ class P(Prop):
         "extend / create_index / merge_groups / remove_empty_groups / add_unseen_protein_groups and the package's other mutating "
         "callers (RescuedGrouping.update_protein_groups with generated or remembered obsolete groups, "
         "RescuedGrouping.merge_with_rescued_protein_groups with the other collection as the old grouping, "
-        "ConnectedProteinGraphs.get_connected_proteins / decouple_connected_proteins over star components) interleaved with "
+        "ConnectedProteinGraphs.get_connected_proteins / decouple_connected_proteins over star components) and the package's "
+        "READERS of a collection (ProteinGroupResults.from_protein_groups, do_competition of the three strategies, "
+        "collect_peptide_scores_per_protein, the three chained as in get_protein_group_results, add_precursor_quants; evidence "
+        "generated from the current groups, keep_all_proteins on/off) interleaved with "
         "get_protein_group, _get_protein_group_idx, get_protein_group_idxs, get_protein_groups, get_leading_proteins, "
         "is_missing / is_shared (on index sets and on group lists, as the callers do), size, get_all_proteins; 6 inside + 2 "
         "never-added proteins (+ their OBSOLETE__ forms); empty groups, repeated proteins and merges on unknown or co-located "
@@ -276,6 +411,18 @@ class P(Prop):
                 return ["merge", rng.choice(pool), rng.choice(pool)]
             gs = [rng.sample(INSIDE, rng.choice([0, 1, 1, 2])) for _ in range(rng.choice([0, 1, 2, 3]))]
             return ["unseen", gs]
+        if r < 0.52:  # the package's readers of a collection
+            k = rng.choice(["rows", "rows", "compete", "collect", "report", "report", "report", "quant"])
+            v = rng.choice([0, 0, 1, 2, 3, 5, 8, 13, 21])
+            strategy = rng.choice(["classic", "picked", "picked_group", "picked_group"])
+            keep_all = rng.random() < 0.35
+            if k == "rows":
+                return ["rows", keep_all, v]
+            if k == "compete":
+                return ["compete", strategy, v]
+            if k == "report":
+                return ["report", strategy, keep_all, v]
+            return [k, v]
         chk = rng.random() < 0.85
         k = rng.choice(
             ["group", "group", "idx", "idxs", "idxs", "groups", "groups", "groups", "lead", "lead", "missing", "shared",
@@ -338,6 +485,7 @@ class P(Prop):
             ["group", "A", True], ["group", "X", True], ["idxs", ["B", "X"], True],
             ["groups", ["A", "X"], True], ["groups", ["X"], True], ["missing_groups", ["X"]], ["lead", ["B"]],
             ["rescue_update", [["OBSOLETE__A"]]], ["connected", [["B", "A"]], False], ["idxs", ["OBSOLETE__A"], True],
+            ["report", "picked_group", False, 0],
         ]
         out = []
         for n in range(1, 5):
@@ -368,15 +516,25 @@ class P(Prop):
                 colls.append(ProteinGroups([list(g) for g in spec["init"]]))
         g = grouping.RescuedSubsetGrouping()  # one grouping strategy object per history, as in a run
         steps, befores = [], []
-        for top in case["ops"]:
-            c, op = top[0], top[1:]
-            befores.append([[list(x) for x in pg.protein_groups] for pg in colls])
-            if op[0] in ("rescue_update", "rescue_update_last", "unseen_from", "connected"):
-                out = apply_caller(colls, g, c, op)
-            else:
-                out = apply_op(colls[c], op)
-            steps.append({"out": out, "states": [_state(pg) for pg in colls]})
-        return {"steps": steps, "_rec": {"before": befores}}
+        init_states = [_state(pg) for pg in colls]
+        scratch = []
+        try:
+            for top in case["ops"]:
+                c, op = top[0], top[1:]
+                befores.append([[list(x) for x in pg.protein_groups] for pg in colls])
+                if op[0] in ("rescue_update", "rescue_update_last", "unseen_from", "connected"):
+                    out = apply_caller(colls, g, c, op)
+                elif op[0] in READERS:
+                    out = apply_reader(colls, c, op, scratch)
+                else:
+                    out = apply_op(colls[c], op)
+                steps.append({"out": out, "states": [_state(pg) for pg in colls]})
+        finally:
+            if scratch:
+                import shutil
+
+                shutil.rmtree(scratch[0], ignore_errors=True)
+        return {"steps": steps, "_rec": {"before": befores, "init_states": init_states}}
 
     # ---------------------------------------------------------------- model
     def model_request(self, case, impl_out):
@@ -430,6 +588,23 @@ class P(Prop):
             unique = all(len(v) == 1 for v in where.values())
             tag = "step %d %r: " % (n, top)
             failed = isinstance(out, dict) and "err" in out
+            if k in READERS:
+                # a reader must leave EVERY live collection exactly as it was (groups, flag, index); it may fail only
+                # loudly with 'index is invalid', only when it uses the index, only while the index is stale
+                prev = impl_out["steps"][n - 1]["states"] if n > 0 else impl_out["_rec"].get("init_states")
+                if prev is not None:
+                    for d, before in enumerate(prev):
+                        after = st["states"][d]
+                        if after != before:
+                            what = "groups" if after["groups"] != before["groups"] else "flag" if after["valid"] != before["valid"] else "index"
+                            return tag + "the reader changed the %s of collection %d: %r before, %r after" % (
+                                what, d, before[what], after[what])
+                if failed:
+                    if out["err"] != "invalid_index" or k not in READERS_USING_INDEX:
+                        return tag + "the reader raised %s" % out["err"]
+                    if fresh[c]:
+                        return tag + "failed with 'index is invalid' although the index was rebuilt after the last change"
+                continue
             if k in MUTATORS:
                 if k in ("append", "extend", "rescue_update", "rescue_update_last"):
                     fresh[c] = False
@@ -531,7 +706,7 @@ class P(Prop):
         ops = [t[1:] for t in norm(case)["ops"]]
         mut = any(op[0] in MUTATORS for op in ops)
         ans = any(
-            op[0] not in MUTATORS and op[0] not in ("size", "all") and isinstance(s["out"], dict) and "err" not in s["out"]
+            op[0] not in MUTATORS and op[0] not in READERS and op[0] not in ("size", "all") and isinstance(s["out"], dict) and "err" not in s["out"]
             for op, s in zip(ops, impl_out["steps"])
         )
         return mut and ans
@@ -551,7 +726,7 @@ class P(Prop):
                 f.append("%s:%s" % (op[0], o["err"]))
             else:
                 f.append("%s:ok" % op[0])
-                if op[0] not in MUTATORS and op[0] not in ("size", "all") and len(touched - {top[0]}) > 0:
+                if op[0] not in MUTATORS and op[0] not in READERS and op[0] not in ("size", "all") and len(touched - {top[0]}) > 0:
                     f.append("lookup-answered-after-other-collection-changed")
             if op[0] in ("groups", "idxs", "missing_groups", "missing", "group") and any(p in OUTSIDE for p in ([op[1]] if isinstance(op[1], str) else op[1])):
                 f.append("outside-protein-queried")
